@@ -76,81 +76,99 @@ Section Facts.
   Qed.
 
   (** * the read loop *)
-  Lemma read_chunk_rows : forall n evs rows rest e,
-    read_chunk evs n = (rows, rest, e) -> rows_of evs = rows ++ rows_of rest /\ length rest <= length evs.
-  Proof.
-    induction n as [|n IH]; intros evs rows rest e H; cbn in H.
-    - inversion H; subst. split; [reflexivity|lia].
-    - destruct evs as [|[r|] evs'].
-      + inversion H; subst. split; [reflexivity|cbn; lia].
-      + destruct (read_chunk evs' n) as [[rows' rest'] e'] eqn:E. inversion H; subst.
-        destruct (IH _ _ _ _ E) as [H1 H2]. cbn. rewrite H1. split; [reflexivity|lia].
-      + inversion H; subst. split; [reflexivity|cbn; lia].
-  Qed.
-
-  Lemma read_chunk_noerr : forall n evs rows rest e,
-    read_chunk evs n = (rows, rest, e) -> no_err evs = true ->
-    no_err rest = true /\ (e = true -> rest = []) /\ (rows = [] -> 1 <= n -> evs = [])
+  Lemma read_chunk_spec : forall n evs rows rest e,
+    read_chunk evs n = Ok (rows, rest, e) ->
+    rows_of evs = rows ++ rows_of rest /\ length rest <= length evs /\ no_err evs = no_err rest
+    /\ (e = true -> rest = []) /\ (rows = [] -> 1 <= n -> evs = [])
     /\ (rows <> [] -> length rest < length evs).
   Proof.
-    induction n as [|n IH]; intros evs rows rest e H Hne; cbn in H.
-    - inversion H; subst. repeat split; try assumption; try discriminate; try lia. intros F; contradiction.
+    induction n as [|n IH]; intros evs rows rest e H; cbn in H.
+    - inversion H; subst. repeat split; try reflexivity; try lia; try discriminate. intros F; contradiction.
     - destruct evs as [|[r|] evs'].
       + inversion H; subst. repeat split; auto. intros F; contradiction.
-      + cbn in Hne. destruct (read_chunk evs' n) as [[rows' rest'] e'] eqn:E. inversion H; subst.
-        destruct (IH _ _ _ _ E Hne) as (H1 & H2 & H3 & H4).
+      + destruct (read_chunk evs' n) as [[[rows' rest'] e']| |] eqn:E; cbn in H; try discriminate.
+        inversion H; subst. destruct (IH _ _ _ _ E) as (H1 & H2 & H3 & H4 & H5 & H6).
         repeat split; try assumption; try discriminate.
-        intros _. destruct (read_chunk_rows _ _ _ _ _ E) as [_ Hl]. cbn. lia.
-      + cbn in Hne. discriminate.
+        * cbn. rewrite H1. reflexivity.
+        * cbn. lia.
+        * intros _. cbn. lia.
+      + discriminate.
   Qed.
 
-  (** * soundness of the chunk loop on streams without read errors *)
-  Lemma load_loop_sound : forall fuel evs acc done d,
-    1 <= c_chunk c -> no_err evs = true -> length evs < fuel ->
-    conv_spec done = Some acc -> load_loop fuel evs acc = Loaded d ->
-    conv_spec (done ++ rows_of evs) = Some d.
+  Lemma read_chunk_total : forall n evs, no_err evs = true -> exists x, read_chunk evs n = Ok x.
   Proof.
-    induction fuel as [|fuel IH]; intros evs acc done d Hc Hne Hf Hacc Hl; [lia|].
+    induction n as [|n IH]; intros evs Hne; cbn; [eexists; reflexivity|].
+    destruct evs as [|[r|] evs']; [eexists; reflexivity| |discriminate].
+    cbn in Hne. destruct (IH evs' Hne) as ([[rows rest] e] & ->). cbn. eexists; reflexivity.
+  Qed.
+
+  Lemma read_chunk_not_panic : forall n evs, read_chunk evs n <> Panic.
+  Proof.
+    induction n as [|n IH]; intros evs; cbn; [discriminate|].
+    destruct evs as [|[r|] evs']; try discriminate.
+    specialize (IH evs'). destruct (read_chunk evs' n) as [[[rows rest] e]| |]; cbn; try discriminate. contradiction.
+  Qed.
+
+  (** * soundness of the chunk loop: success means no read error occurred and every row was loaded *)
+  Lemma load_loop_sound : forall fuel evs acc done d,
+    1 <= c_chunk c -> length evs < fuel ->
+    conv_spec done = Some acc -> load_loop fuel evs acc = Loaded d ->
+    no_err evs = true /\ conv_spec (done ++ rows_of evs) = Some d.
+  Proof.
+    induction fuel as [|fuel IH]; intros evs acc done d Hc Hf Hacc Hl; [lia|].
     cbn [Csv.load_loop] in Hl.
-    destruct (read_chunk evs (c_chunk c)) as [[rows rest] e] eqn:E.
-    destruct (read_chunk_rows _ _ _ _ _ E) as [Hrows _].
-    destruct (read_chunk_noerr _ _ _ _ _ E Hne) as (Hne' & Hend & Hnil & Hlt).
+    destruct (read_chunk evs (c_chunk c)) as [[[rows rest] e]| |] eqn:E; try discriminate.
+    destruct (read_chunk_spec _ _ _ _ _ E) as (Hrows & _ & Hne & Hend & Hnil & Hlt).
     destruct rows as [|r rows].
-    - inversion Hl; subst. rewrite (Hnil eq_refl Hc). cbn. rewrite app_nil_r. exact Hacc.
+    - inversion Hl; subst. rewrite (Hnil eq_refl Hc). cbn. rewrite app_nil_r. split; [reflexivity|exact Hacc].
     - destruct (conv_chunk (r :: rows)) as [dd| |] eqn:Ec; try discriminate.
       apply conv_chunk_spec in Ec.
       pose proof (conv_spec_app _ _ _ _ Hacc Ec) as Happ.
       destruct e.
-      + inversion Hl; subst. rewrite Hrows, (Hend eq_refl). cbn [rows_of]. rewrite app_nil_r. exact Happ.
-      + rewrite Hrows, app_assoc. apply (IH rest (ds_app acc dd) (done ++ r :: rows) d); try assumption.
-        assert (length rest < length evs) by (apply Hlt; discriminate). lia.
+      + inversion Hl; subst. rewrite Hne, Hrows, (Hend eq_refl). cbn [rows_of no_err forallb]. rewrite app_nil_r.
+        split; [reflexivity|exact Happ].
+      + assert (Hlen : length rest < length evs) by (apply Hlt; discriminate).
+        destruct (IH rest (ds_app acc dd) (done ++ r :: rows) d Hc ltac:(lia) Happ Hl) as [H1 H2].
+        split; [rewrite Hne; exact H1|]. rewrite Hrows, app_assoc. exact H2.
   Qed.
 
   Theorem load_sound evs d :
-    1 <= c_chunk c -> no_err evs = true -> load pf c evs = Loaded d -> all_loaded pf c evs d.
+    1 <= c_chunk c -> load pf c evs = Loaded d -> all_loaded pf c evs d.
   Proof.
-    intros Hc Hne Hl. split; [exact Hne|]. unfold load in Hl.
-    apply (load_loop_sound _ _ _ [] _ Hc Hne (Nat.lt_succ_diag_r _) conv_spec_nil Hl).
+    intros Hc Hl. unfold load in Hl.
+    apply (load_loop_sound _ _ _ [] _ Hc (Nat.lt_succ_diag_r _) conv_spec_nil Hl).
   Qed.
 
-  (** * no crash when every timestamp parses *)
-  Lemma load_loop_no_crash : forall fuel evs acc,
-    forallb (fun r => match time_of r with Some _ => true | None => false end) (rows_of evs) = true ->
-    load_loop fuel evs acc <> Crash.
+  (** * the import never crashes *)
+  Lemma conv_chunk_not_panic rows : conv_chunk rows <> Panic.
   Proof.
-    induction fuel as [|fuel IH]; intros evs acc Ht; cbn [Csv.load_loop]; [discriminate|].
-    destruct (read_chunk evs (c_chunk c)) as [[rows rest] e] eqn:E.
-    destruct (read_chunk_rows _ _ _ _ _ E) as [Hrows _]. rewrite Hrows, forallb_app in Ht.
-    apply andb_prop in Ht as [Ht1 Ht2].
+    unfold Csv.conv_chunk. destruct (mapM time_of rows); [|discriminate].
+    destruct (conv_cols rows); [|discriminate]. destruct (wire_ok c); discriminate.
+  Qed.
+
+  Lemma load_loop_no_crash : forall fuel evs acc, load_loop fuel evs acc <> Crash.
+  Proof.
+    induction fuel as [|fuel IH]; intros evs acc; cbn [Csv.load_loop]; [discriminate|].
+    pose proof (read_chunk_not_panic (c_chunk c) evs) as Hp.
+    destruct (read_chunk evs (c_chunk c)) as [[[rows rest] e]| |]; try discriminate; [|contradiction].
     destruct rows as [|r rows]; [discriminate|].
-    unfold Csv.conv_chunk. destruct (mapM_total _ _ Ht1) as (ts & ->).
-    destruct (conv_cols (r :: rows)); [|discriminate].
-    destruct (wire_ok c); [|discriminate].
-    destruct e; [discriminate|]. apply IH. exact Ht2.
+    pose proof (conv_chunk_not_panic (r :: rows)) as Hq.
+    destruct (conv_chunk (r :: rows)); try discriminate; [|contradiction].
+    destruct e; [discriminate|apply IH].
   Qed.
 
-  Theorem load_no_crash evs : times_ok c evs = true -> load pf c evs <> Crash.
-  Proof. intros H. unfold load. apply load_loop_no_crash. exact H. Qed.
+  Theorem load_no_crash evs : load pf c evs <> Crash.
+  Proof. unfold load. apply load_loop_no_crash. Qed.
+
+  (** a read error anywhere in the file is reported *)
+  Theorem load_reports_read_error evs :
+    1 <= c_chunk c -> no_err evs = false -> load pf c evs = Error.
+  Proof.
+    intros Hc Hne. destruct (load pf c evs) as [d| |] eqn:E; [|reflexivity|].
+    - destruct (load_sound evs d Hc E) as [H _]. congruence.
+    - exfalso. exact (load_no_crash evs E).
+  Qed.
+
   (** * completeness: a file whose every row converts is loaded, whatever the chunk size *)
   Lemma mapM_app_inv {A B} (f : A -> option B) a b z :
     mapM f (a ++ b) = Some z -> exists x y, mapM f a = Some x /\ mapM f b = Some y /\ z = x ++ y.
@@ -202,9 +220,9 @@ Section Facts.
   Proof.
     induction fuel as [|fuel IH]; intros evs acc done d Hc Hw Hne Hf Hacc Hd; [lia|].
     cbn [Csv.load_loop].
-    destruct (read_chunk evs (c_chunk c)) as [[rows rest] e] eqn:E.
-    destruct (read_chunk_rows _ _ _ _ _ E) as [Hrows _].
-    destruct (read_chunk_noerr _ _ _ _ _ E Hne) as (Hne' & Hend & Hnil & Hlt).
+    destruct (read_chunk_total (c_chunk c) evs Hne) as ([[rows rest] e] & E). rewrite E.
+    destruct (read_chunk_spec _ _ _ _ _ E) as (Hrows & _ & Hne0 & Hend & Hnil & Hlt).
+    assert (Hne' : no_err rest = true) by congruence.
     destruct rows as [|r rows].
     - rewrite (Hnil eq_refl Hc) in Hd. cbn in Hd. rewrite app_nil_r in Hd. congruence.
     - rewrite Hrows, app_assoc in Hd.
